@@ -161,16 +161,20 @@ Definition is_smart (r : route) : bool :=
 Definition is_call_route (r : route) : bool := String.prefix "call_" (r_name r).
 
 (* THE SETTLED OBSERVATION (DESIGN.md, C16).  With a vptr_map policy the
-   virtual_ptr constructor evaluates Policy::vptrs[index], i.e.
+   virtual_ptr constructor used to evaluate Policy::vptrs[index], i.e.
    std::unordered_map::operator[], whose IR contains the insertion path
-   (operator new, _M_need_rehash, stores into the map).  No stock policy uses
-   vptr_map.  These routes are kept apart by this single definition: delete the
-   body (make it return false) to hold them to the same obligation. *)
+   (operator new, _M_need_rehash, stores into the map).  Fixed in the library
+   (the constructor now calls Policy::dynamic_vptr, i.e. find(), like a method
+   call), so nothing is excluded any more: the three routes below are held to
+   [route_read_only] like every other one.  [C16_excluded] stays as the single
+   switch through which a route could be set apart. *)
 Definition vptr_map_ctor_names : list string :=
   [ "vptr_exact"; "vptr_from_base"; "shared_ctor" ].
 
-Definition C16_excluded (r : route) : bool :=
+Definition is_vptr_map_ctor (r : route) : bool :=
   String.eqb (r_shape r) "vmap" && mem_string (r_name r) vptr_map_ctor_names.
+
+Definition C16_excluded (r : route) : bool := false.
 
 Definition checked_routes (l : list route) : list route :=
   filter (fun r => negb (C16_excluded r)) l.
@@ -217,14 +221,6 @@ Definition routes_complete (l : list route) : bool :=
   forallb (fun v => forallb (fun s => forallb (fun n => route_present l n s v)
                                               expected_route_names)
                             expected_shapes)
-          expected_variants.
-
-(* the excluded routes must exist too (an exclusion that matches nothing would
-   hide a renamed route) *)
-Definition excluded_present (l : list route) : bool :=
-  forallb (fun v => forallb (fun n => existsb (fun r => C16_excluded r
-                       && String.eqb (r_name r) n && String.eqb (r_variant r) v) l)
-                            vptr_map_ctor_names)
           expected_variants.
 
 (* ------------------------------------------------------------------------- *)
